@@ -336,86 +336,103 @@ def rule_noise_preserved(ctx: Ctx) -> None:
                      construct=f"{q}: noise of removed operations dropped")
 
 
+def unwrap_model(repo):
+    """Decide OneQubitGateWrapper.unwrap on a finite model: the method body is interpreted (gqsa.minterp, nothing of graphiq runs) for
+    wrappers of 1..3 symbolic gate classes with (a) a per-gate noise list, (b) one wrapper-level noise whose "After gate" flag is set,
+    (c) one whose flag is clear.  `operations` is a matrix product (first element acts last), so the expected *application* sequence is
+    gate k-1 .. gate 0, each on the wrapper's own register with its own noise (a), or noise-free with an Identity carrying the wrapper's
+    noise after all of them (b) / before all of them (c).  Returns the list of discrepancies; Unmodelled constructs raise AnalysisError."""
+    import ast as _ast
+    from ..minterp import Interp, Unmodelled, ModelError, Return
+    from ..core import norm as _norm
+    OPSF = "graphiq/circuit/ops.py"
+    fn = repo.anchor(OPSF, "OneQubitGateWrapper.unwrap")
+    bad = []
+
+    def oracle(c, it):
+        f = c.func
+        fname = _norm(f)
+        if fname == "isinstance" and len(c.args) == 2:
+            v = it.ev(c.args[0])
+            t = _norm(c.args[1])
+            if t == "list":
+                return isinstance(v, list)
+            raise Unmodelled(f"isinstance against `{t}`")
+        if fname.endswith("NoNoise") and not c.args and not c.keywords:
+            return "NoNoise"
+        head = None
+        if fname == "Identity" or fname.endswith(".Identity"):
+            head = "Identity"
+        elif isinstance(f, (_ast.Subscript, _ast.Name)):
+            try:
+                hv = it.ev(f)
+            except Unmodelled:
+                return NotImplemented
+            if isinstance(hv, str) and hv.startswith("G"):
+                head = hv
+        if head is None:
+            return NotImplemented
+        slots = {"register": None, "reg_type": "e", "noise": "NoNoise"}     # constructor defaults of OneQubitOperationBase
+        for name, a in zip(("register", "reg_type", "noise"), c.args):
+            slots[name] = it.ev(a)
+        for k in c.keywords:
+            if k.arg not in slots:
+                raise Unmodelled(f"constructor keyword `{k.arg}`")
+            slots[k.arg] = it.ev(k.value)
+        return (head, slots["register"], slots["reg_type"], slots["noise"])
+
+    cases = 0
+    for k in (1, 2, 3):
+        gates = [f"G{i}" for i in range(k)]
+        for kind in ("list", "after", "before"):
+            noise = [f"n{i}" for i in range(k)] if kind == "list" else "N"
+            env = {"self.operations": list(gates), "self.noise": noise, "self.register": "R", "self.reg_type": "T",
+                   "self.noise.noise_parameters": {"After gate": kind == "after"}}
+            if kind == "list":
+                want = [(gates[i], "R", "T", f"n{i}") for i in reversed(range(k))]
+            else:
+                seq = [(gates[i], "R", "T", "NoNoise") for i in reversed(range(k))]
+                carrier = ("Identity", "R", "T", "N")
+                want = seq + [carrier] if kind == "after" else [carrier] + seq
+            try:
+                Interp(env, oracle).run(fn.body)
+                got = None
+            except Return as r:
+                got = r.value
+            except ModelError as ex:
+                bad.append(f"with {k} wrapped gate(s) and {'a per-gate noise list' if kind == 'list' else 'one wrapper-level noise'} the method fails: {ex}")
+                cases += 1
+                continue
+            except Unmodelled as ex:
+                raise AnalysisError(f"OneQubitGateWrapper.unwrap: not decidable on the wrapper model ({ex})")
+            cases += 1
+            got = list(got) if isinstance(got, (list, tuple)) else got
+            if got != want:
+                def show(seq):
+                    return "[" + ", ".join(f"{g[0]}@{g[1]}/{g[2]}:{g[3]}" if isinstance(g, tuple) and len(g) == 4 else str(g) for g in seq) + "]" if isinstance(seq, list) else repr(seq)
+                label = {"list": "per-gate noise [n0..]", "after": "one noise N applied after the gate", "before": "one noise N applied before the gate"}[kind]
+                bad.append(f"for operations [{', '.join(gates)}] (a matrix product: {gates[-1]} acts first) with {label} the application sequence "
+                           f"must be {show(want)}, unwrap returns {show(got)}")
+    return fn, bad, cases
+
+
 def rule_unwrap_order(ctx: Ctx) -> None:
     """unwrap.order: OneQubitGateWrapper.operations is a matrix product (first element acts last); unwrap() returns the gates in the order
-    they are applied, i.e. the list built in product order and then *reversed*.  A single wrapper-level noise model becomes an Identity
-    carrying it, applied after all gates when its "After gate" flag is set (put first in product order) and before them otherwise (put
-    last); with per-gate noise, gate i gets noise[i]."""
-    import ast as _ast
-    from ..core import call_attr as _ca, norm as _norm, short as _short
+    they are applied.  A single wrapper-level noise model becomes an Identity carrying it, applied after all gates when its "After gate"
+    flag is set and before them otherwise; with per-gate noise, gate i gets noise[i]; every gate sits on the wrapper's own register.
+    Decided by interpreting the method on a finite wrapper model (unwrap_model), so any way of writing the method that yields the right
+    sequence is accepted."""
     repo = ctx.repo
     OPSF = "graphiq/circuit/ops.py"
     m = repo.module(OPSF)
-    fn = repo.anchor(OPSF, "OneQubitGateWrapper.unwrap")
+    fn, bad, cases = unwrap_model(repo)
     ctx.touch(m, fn)
-    rets = [r for r in _ast.walk(fn) if isinstance(r, _ast.Return) and r.value is not None]
-    bad = []
-    if len(rets) != 1:
-        raise AnalysisError("OneQubitGateWrapper.unwrap: single return expected")
-    v = rets[0].value
-    rev = (isinstance(v, _ast.Subscript) and isinstance(v.slice, _ast.Slice) and v.slice.step is not None and _norm(v.slice.step) == "-1"
-           and v.slice.lower is None and v.slice.upper is None) or (isinstance(v, _ast.Call) and _norm(v.func) in ("list",) and v.args and isinstance(v.args[0], _ast.Call) and _norm(v.args[0].func) == "reversed")
-    if not rev and isinstance(v, _ast.Call) and v.args and any(isinstance(x, _ast.Subscript) and isinstance(x.slice, _ast.Slice) and x.slice.step is not None
-                                                                  and _norm(x.slice.step) == "-1" for x in _ast.walk(v)):
-        # the reversed list goes through a post-processing call before it is returned: whether that call keeps the product is its own question
-        raise AnalysisError(f"OneQubitGateWrapper.unwrap: the reversed list is post-processed by `{_short(v.func)}` before it is returned; not decided")
-    if not rev:
-        bad.append(f"unwrap returns `{_short(v)}`: the product-ordered list must be reversed into application order")
-    gl = _norm(v.value) if isinstance(v, _ast.Subscript) else None
-    flag_if = [i for i in _ast.walk(fn) if isinstance(i, _ast.If) and "After gate" in _norm(i.test)]
-    if len(flag_if) == 1 and gl is not None:
-        I = flag_if[0]
-        from ..chains import positive as _pos
-        t, neg = _pos(I.test)
-        after_arm, before_arm = (I.orelse, I.body) if neg else (I.body, I.orelse)
-        def how(stmts):
-            for c in [x for st in stmts for x in _ast.walk(st) if isinstance(x, _ast.Call)]:
-                if _ca(c) == "insert" and _norm(c.func.value) == gl and c.args and _norm(c.args[0]) == "0":
-                    return "front"
-                if _ca(c) == "append" and _norm(c.func.value) == gl:
-                    return "end"
-            return None
-        if how(after_arm) != "front" or how(before_arm) != "end":
-            bad.append(f"a noise with 'After gate' set must be placed first in the product-ordered list (applied last) and otherwise last; found {how(after_arm)} / {how(before_arm)}")
-    elif gl is not None:
-        raise AnalysisError("OneQubitGateWrapper.unwrap: the placement of the wrapper-level noise was not found")
-    comps = [c for c in _ast.walk(fn) if isinstance(c, _ast.ListComp)]
-    # every operation unwrap builds sits on the wrapper's own register: register and reg_type are both taken from self (a constructor
-    # called without reg_type falls back to the default 'e', which puts a photonic wrapper's gate / noise carrier on an emitter)
-    for call in [x for x in _ast.walk(fn) if isinstance(x, _ast.Call) and any(k.arg == "noise" for k in x.keywords)
-                 and (isinstance(x.func, _ast.Subscript) or (isinstance(x.func, _ast.Name) and x.func.id[:1].isupper()) or isinstance(x.func, _ast.Name))]:
-        kws = {k.arg: _norm(k.value) for k in call.keywords}
-        pos = [_norm(a) for a in call.args]
-        reg_ok = kws.get("register") == "self.register" or (pos[:1] == ["self.register"])
-        typ_ok = kws.get("reg_type") == "self.reg_type" or (pos[1:2] == ["self.reg_type"])
-        if not (reg_ok and typ_ok):
-            bad.append(f"`{_short(call, 70)}` does not place the operation on the wrapper's own register (register=self.register, reg_type=self.reg_type)")
-    for c in comps:
-        g = c.generators[0]
-        iv = _norm(g.target)
-        kw = next((k.value for call in _ast.walk(c.elt) if isinstance(call, _ast.Call) for k in call.keywords if k.arg == "noise"), None)
-        head = c.elt.func if isinstance(c.elt, _ast.Call) else None
-        # lock-step form: for op_class, op_noise in zip(self.operations, <noise list>)
-        if isinstance(g.iter, _ast.Call) and _norm(g.iter.func) == "zip" and len(g.iter.args) == 2 and _norm(g.iter.args[0]) == "self.operations" \
-                and isinstance(g.target, _ast.Tuple) and len(g.target.elts) == 2 and head is not None and _norm(head) == _norm(g.target.elts[0]):
-            from ..core import deref as _deref
-            nl = g.iter.args[1]
-            srcs = [a_.value for a_ in _ast.walk(fn) if isinstance(a_, _ast.Assign) and isinstance(nl, _ast.Name) and any(_norm(t_) == nl.id for t_ in a_.targets)] or [nl]
-            okn = all(_norm(s_) == "self.noise" or ("NoNoise" in _norm(s_) and "len(self.operations)" in _norm(s_)) for s_ in srcs)
-            if kw is None or _norm(kw) != _norm(g.target.elts[1]) or not okn:
-                bad.append(f"gate i does not receive noise i: the gates are built over `{_short(g.iter)}` with noise `{_short(kw) if kw is not None else 'missing'}`")
-            continue
-        if head is not None and _norm(head) != f"self.operations[{iv}]":
-            bad.append(f"gate i of the unwrapped list is built from `{_short(head)}` instead of self.operations[{iv}]")
-        if kw is not None and "self.noise" in _norm(kw) and _norm(kw) != f"self.noise[{iv}]":
-            bad.append(f"gate i receives `{_short(kw)}` instead of self.noise[{iv}]")
-        if _norm(g.iter) != "range(len(self.operations))":
-            bad.append(f"the gates are built over `{_short(g.iter)}` instead of all operations")
     if bad:
-        for why in dict.fromkeys(bad):
-            ctx.fail("unwrap.order", m, fn, f"OneQubitGateWrapper.unwrap: {why}", func="OneQubitGateWrapper.unwrap", construct=f"unwrap: {why[:70]}")
+        why = bad[0]
+        ctx.fail("unwrap.order", m, fn, f"OneQubitGateWrapper.unwrap: {why}" + (f" (+{len(bad) - 1} more model cases)" if len(bad) > 1 else ""),
+                 func="OneQubitGateWrapper.unwrap", construct="unwrap: application sequence on the wrapper model")
     else:
-        ctx.ok("unwrap.order", m, fn, what="product order reversed; wrapper noise after / before; per-gate noise aligned")
+        ctx.ok("unwrap.order", m, fn, what=f"application order, noise carrier placement, per-gate noise and register decided on {cases} model wrappers")
 
 
 def rule_unwrap_source(ctx: Ctx) -> None:
@@ -462,11 +479,11 @@ def rule_unwrap_source(ctx: Ctx) -> None:
 
 KNOCKOUTS = [
     Knockout("grouping-wrapper-without-reg-type", DAG, sub_nth("                                        gate_list, register, reg_type, noise=noise_list\n", "                                        gate_list, register=register, noise=noise_list\n", 0), "group.run-closed", "without the walked register"),
-    Knockout("unwrap-noise-carrier-without-reg-type", "graphiq/circuit/ops.py", sub_once("            noise = Identity(\n                register=self.register, reg_type=self.reg_type, noise=self.noise\n            )", "            noise = Identity(self.register, noise=self.noise)"), "unwrap.order", "own register"),
+    Knockout("unwrap-noise-carrier-without-reg-type", "graphiq/circuit/ops.py", sub_once("            noise = Identity(\n                register=self.register, reg_type=self.reg_type, noise=self.noise\n            )", "            noise = Identity(self.register, noise=self.noise)"), "unwrap.order", "Identity@R/e"),
     Knockout("unwrap-skips-single-gate-wrappers", DAG, sub_once("                op_list = self.dag.nodes[node][\"op\"].unwrap()\n", "                op_list = self.dag.nodes[node][\"op\"].unwrap()\n                if len(op_list) < 2:\n                    continue\n"), "order.wrapper", "skipped"),
     Knockout("grouping-skips-identity-with-open-run", DAG, sub_once("                    else:\n                        gate_list.append(op.__class__)\n                        noise_list.append(op.noise)\n                    self.remove_op(node)", "                    elif isinstance(op, ops.Identity) and isinstance(op.noise, NoNoise):\n                        self.remove_op(node)\n                        continue\n                    else:\n                        gate_list.append(op.__class__)\n                        noise_list.append(op.noise)\n                    self.remove_op(node)"), "group.run-closed", "open run"),
-    Knockout("unwrap-not-reversed", "graphiq/circuit/ops.py", sub_once("        return gates[::-1]\n\n    def openqasm_info(self):", "        return gates\n\n    def openqasm_info(self):"), "unwrap.order", "reversed"),
-    Knockout("unwrap-after-noise-appended", "graphiq/circuit/ops.py", sub_once("                gates.insert(0, noise)\n            else:\n                gates.append(noise)", "                gates.append(noise)\n            else:\n                gates.insert(0, noise)"), "unwrap.order", "After gate"),
+    Knockout("unwrap-not-reversed", "graphiq/circuit/ops.py", sub_once("        return gates[::-1]\n\n    def openqasm_info(self):", "        return gates\n\n    def openqasm_info(self):"), "unwrap.order", "application sequence"),
+    Knockout("unwrap-after-noise-appended", "graphiq/circuit/ops.py", sub_once("                gates.insert(0, noise)\n            else:\n                gates.append(noise)", "                gates.append(noise)\n            else:\n                gates.insert(0, noise)"), "unwrap.order", "application sequence"),
     Knockout("remove-identity-ignores-noise", "graphiq/circuit/circuit_dag.py", sub_once('                if isinstance(self.dag.nodes[node]["op"].noise, NoNoise):\n                    self.remove_op(node)\n', '                self.remove_op(node)\n'), "effect.noise-preserved", "remove_identity"),
     Knockout("grouping-wrapper-without-noise", "graphiq/circuit/circuit_dag.py", lambda src: (src.replace("gate_list, register, reg_type, noise=noise_list", "gate_list, register, reg_type") if src.count("gate_list, register, reg_type, noise=noise_list") == 2 else (_ for _ in ()).throw(LookupError("anchor"))), "effect.noise-preserved", "group_one_qubit_gates"),
     Knockout("unwrap-single-gate-fast-path", "graphiq/circuit/circuit_dag.py", sub_once('                op_list = self.dag.nodes[node]["op"].unwrap()\n', '                wrapper = self.dag.nodes[node]["op"]\n                if len(wrapper.operations) == 1:\n                    self.replace_op(node, wrapper.operations[0](register=wrapper.register, reg_type=wrapper.reg_type))\n                    continue\n                op_list = wrapper.unwrap()\n'), "unwrap.source", "not from unwrap"),
